@@ -187,7 +187,24 @@ type vconn struct {
 	inRead bool // the reader goroutine is inside Read
 	got    int  // bytes the reader has been given so far
 	notify chan struct{}
+	// A read deadline armed by the reader. The property quantifies over every segmentation of the stream,
+	// delays of any length between two segments included, so a deadline the reader arms is taken to expire
+	// whenever the reader has to WAIT for the next segment: the connection hands the reader one timeout per
+	// stream position (after a short real wait, so that bytes of a Write in progress still get through) and
+	// only then counts the reader as blocked. The reader of the unchanged tree arms none.
+	armed    bool
+	timeouts int // timeouts handed out since the last byte
 }
+
+func (c *vconn) arm(t time.Time) error {
+	c.mu.Lock()
+	c.armed = !t.IsZero()
+	c.mu.Unlock()
+	return nil
+}
+
+func (c *vconn) SetDeadline(t time.Time) error     { return c.arm(t) }
+func (c *vconn) SetReadDeadline(t time.Time) error { return c.arm(t) }
 
 func (c *vconn) RemoteAddr() net.Addr { return c.remote }
 
@@ -201,12 +218,23 @@ func (c *vconn) signal() {
 func (c *vconn) Read(p []byte) (int, error) {
 	c.mu.Lock()
 	c.inRead = true
+	expire := c.armed && c.timeouts == 0
 	c.mu.Unlock()
-	c.signal()
+	if expire {
+		c.Conn.SetReadDeadline(time.Now().Add(30 * time.Millisecond))
+	} else {
+		c.Conn.SetReadDeadline(time.Time{})
+		c.signal()
+	}
 	n, err := c.Conn.Read(p)
 	c.mu.Lock()
 	c.inRead = false
 	c.got += n
+	if n > 0 {
+		c.timeouts = 0
+	} else if expire && err != nil {
+		c.timeouts++
+	}
 	c.mu.Unlock()
 	c.signal()
 	return n, err
@@ -216,7 +244,7 @@ func (c *vconn) Read(p []byte) (int, error) {
 func (c *vconn) waiting(written int) bool {
 	c.mu.Lock()
 	defer c.mu.Unlock()
-	return c.inRead && c.got == written
+	return c.inRead && c.got == written && (!c.armed || c.timeouts > 0)
 }
 
 type connection struct {
